@@ -682,7 +682,7 @@ spif_str_splice(spif_str_t self, spif_stridx_t idx, spif_stridx_t cnt, spif_str_
         ptmp += idx;
     }
     if (!SPIF_OBJ_ISNULL(other)) {
-        memcpy(ptmp, other->s, other->len);
+        memcpy(ptmp, TEXT_OF(other), other->len);
         ptmp += other->len;
     }
     memcpy(ptmp, self->s + idx + cnt, self->len - idx - cnt + 1);
